@@ -5,6 +5,8 @@ Licensed under the GPLv3.
 """
 
 import numpy as np
+from decimal import Context, Decimal, ROUND_HALF_EVEN
+from decimal import localcontext as decimal_context
 from astropy import units as u
 from astropy.coordinates import Angle, Longitude
 from astropy.time.utils import two_sum, two_product
@@ -461,6 +463,20 @@ class Phase(Angle):
             func = ("{0:1." + str(precision) + "f}").format
 
         def do_format(count, frac):
+            if precision is not None:
+                # Exact decimal arithmetic on the two doubles, so that any number
+                # of digits can be shown (independent of the ambient context).
+                with decimal_context(Context(prec=1200, rounding=ROUND_HALF_EVEN)):
+                    value = Decimal(float(count)) + Decimal(float(frac))
+                    if value == 0:
+                        value = abs(value)
+                    s = "{:{}.{}f}".format(value, "+" if alwayssign else "-", precision)
+                if self.imaginary:
+                    s += "j"
+                if format == "latex":
+                    s = "$" + s + "$"
+                return s
+
             neg = (count + frac) < 0
             if neg:
                 count = -count
